@@ -49,8 +49,9 @@ def K(name, harnesses, complete, bound, tier="quick", function=None, zflags=None
             "tier": tier, "function": function, "zflags": zflags or [], "timeout": timeout}
 
 
-def N(name, task, tier="quick", thorough_task=None):
-    return {"kind": "native", "name": name, "task": task, "tier": tier, "thorough_task": thorough_task, "timeout": 3600}
+def N(name, task, tier="quick", thorough_task=None, exclude_id=None):
+    return {"kind": "native", "name": name, "task": task, "tier": tier, "thorough_task": thorough_task, "timeout": 3600,
+            "exclude_id": exclude_id}
 
 
 def B(name, task, bound, tier="quick", timeout=1800):
@@ -197,7 +198,7 @@ PROPS["C17"] = {
     "technique": "Verus contracts on the real tree_hash_atom/tree_hash_pair and the iterative tree_hash stack machine (extracted verbatim) against the recursive definition th(); tree_hash_cached with the TreeCache invariant; curry_tree_hash / curry_and_treehash against the tree hash of the curried program (unit curry); exhaustive native evaluation of the 24 precomputed small-atom hashes",
     "level_text": "Deductive proof for every allocator tree (any depth/width/sharing, since th is a function of the abstract tree): tree_hash returns sha256(1‖atom) / sha256(2‖th l‖th r) recursively, never underflows its stacks and terminates (measure 2*size). The small-atom shortcut is sound because the 24 table constants are recomputed exhaustively.",
     "level_note": "Assumed: Sha256 ghost model over an uninterpreted sha256; clvmr Allocator::node contract. tree_hash_cached with the TreeCache invariant (every memoised hash is the tree hash of its node, for any call history) is proved in unit tree_hash; curry_tree_hash and fast_forward's curry_and_treehash / curry_single_arg are proved in unit curry against the tree hash of the curried program (a (q . program) (c (q . arg) ... 1)); tree_hash_from_bytes is the composition of an assumed decoder and tree_hash_cached.",
-    "components": [V("tree_hash"), N("native_tree_hash_precomputed", "tree_hash_precomputed"), V("curry"), V("tree_hash_bytes"), N("native_tree_hash_ground", "tree_hash_ground")],
+    "components": [V("tree_hash"), N("native_tree_hash_precomputed", "tree_hash_precomputed"), V("curry"), V("tree_hash_bytes"), N("native_tree_hash_ground", "tree_hash_ground"), N("native_curry_ground", "curry_ground")],
     "assumptions": ["Sha256 ghost model, sha256 uninterpreted", "clvmr Allocator::node / atom contracts (shims/clvmr.rs)"],
     "not_covered": [
         "tree_hash_from_bytes is proved (unit tree_hash_bytes) to be the tree hash of whatever node_from_bytes_backrefs decodes, and an error exactly when that fails; the decoder itself (clvmr) is an assumed deterministic collaborator",
@@ -282,7 +283,10 @@ PROPS["C08"] = {
     "technique": "Verus contracts on the real clvm_bytes_len and calculate_generator_length (extracted; generic parameter monomorphised) against the CLVM serialisation-length spec of (q . (spends)); QUOTE_BYTES lemma; Verus contracts on the real calculate_base_cost and run_spendbundle (unit drivers); native evaluation of ground comparisons of the mempool path with the block path over plain / back-reference / builder generators",
     "level_text": "Deductive proof for every list of coin spends (any reveals, any u64 amounts): the predicted generator length equals the serialized length of the quoted spend list, 5 + sum(39 + |puzzle| + ser_len(canon(amount)) + |solution|) as derived from the serialisation format, and the quote-wrapper overhead is exactly 2 bytes.",
     "level_note": "Unit drivers: calculate_base_cost is proved to charge the serialized length without the 2-byte quote wrapper (interned virtual bytes under INTERNED_GENERATOR, whatever the number of spends), run_spendbundle to hand the parser (parent id, canonical amount) for every coin and to report size + execution + condition cost. Agreement of the two paths over generators built from the bundle needs CLVM execution: decided on 224 ground comparisons (28 bundles: coin amounts at every canonical-length boundary, 0/1/2/5 spends, rejected bundles) x plain / back-reference / builder generators x with and without INTERNED_GENERATOR: same verdict, same conditions, cost offset exactly the quote overhead, predicted length == emitted length.",
-    "components": [V("generator_len"), V("int_encoders"), V("drivers"), N("native_paths_ground", "paths_ground")],
+    "components": [V("generator_len"), V("int_encoders"), V("drivers"), N("native_paths_ground", "paths_ground"),
+                   # the builders produce generators too: what they emit must validate like the bundles they were given (the
+                   # running-estimate clause of a fresh builder is C10's statement and is reported there)
+                   V("builders"), N("native_builders_ground", "builders_ground", thorough_task="builders_ground:thorough", exclude_id=r"/fresh-estimate$")],
     "assumptions": ["reveals are serialized CLVM (their byte length is their serialized length)", "Program::as_ref returns the wrapped bytes"],
     "not_covered": [
         "run_spendbundle vs run_block_generator2 equivalence for all bundles (CLVM execution): ground comparisons only",
